@@ -491,7 +491,13 @@ def _empty_state(st):
 
 def repo_call(ex, st, fi, selfref, args, kwargs, node):
     eng = ex.eng
-    behavior = ex.fr.contract.call_behaviors.get(fi.qualname.split(".")[-1], ex.fr.behavior) if ex.fr.contract else "default"
+    if ex.fr.contract:
+        cb = ex.fr.contract.call_behaviors
+        # the full qualified name ("BinaryDecoder.read_int") wins over the short one, "Class.*" covers a class
+        behavior = cb.get(fi.qualname) or (cb.get(fi.qualname.split(".")[0] + ".*") if "." in fi.qualname else None) \
+            or cb.get(fi.qualname.split(".")[-1], ex.fr.behavior)
+    else:
+        behavior = "default"
     c = eng.contracts.get(fi.module, fi.qualname, behavior)
     bound = bind_args(ex, st, fi.node, selfref, args, kwargs, fi.module)
     if c is not None and not c.inline:
